@@ -333,7 +333,10 @@ def r7e(prog, rep, config='default'):
     application no call re-orders, drops or de-duplicates the file names / readers, and they do not pass through a set or map"""
     n = 0
     for fn in prog.product_fns():
-        makes = [c for c in fn.calls if re.search(r'util::rw::DescribedReader::from_(file_path|string)$', c.callee)]
+        if fn.kind == 'Closure' and any(READER_SEQ.search(t) for t in prog.owner_of(fn).ty.values()) and prog.owner_of(fn).kind != 'Closure':
+            continue      # judged with the function that owns the list
+        # the readers may be built in a closure of the function (`names.into_iter().map(|n| DescribedReader::from_file_path(..)).collect()`)
+        makes = [c for g in [fn] + list(prog.closures_of(fn)) for c in g.calls if re.search(r'util::rw::DescribedReader::from_(file_path|string)$', c.callee)]
         if not makes or mir.is_testsupport(fn.name):
             continue
         has_list = any(READER_SEQ.search(t) for t in fn.ty.values())
@@ -368,7 +371,7 @@ def r7e(prog, rep, config='default'):
         else:
             rep.ok('R7e', k, where=makes[0].where(), fn=fn.name,
                    detail='the reader list is filled in argument order; no sort / reverse / dedup / retain / set on the file-name or reader list')
-    want = 1
+    want = 2 if config == 'default' else 1      # the command line front end and the acb_wasm entry point
     if n == 0 and config == 'wasm':
         rep.ok('R7e', 'no-front-end-in-this-config', detail='the library built with the wasm feature set contains no function that builds the reader list '
                '(the CLI is compiled out; the acb_wasm entry point is analysed in the default configuration)', trivial=True)
